@@ -216,6 +216,32 @@ func expectedVerdict(s EncSpec) verdict {
 		if qrExpectedMinVersion(QRCase{Content: s.Content, Level: s.A, Mode: s.B}) != 0 {
 			return mustAccept
 		}
+		if s.B == 0 && len(b) > 0 {
+			// Auto: too long for the densest single mode. A QR symbol may mix modes, so the content can still be
+			// representable; this library's Auto is single-mode (C13 says so) and rejects, an encoder that mixes modes
+			// may accept. Only beyond the bound of an ideal mixture (digits 10/3, alphanumerics 5.5, bytes 8 bits, no
+			// headers) is rejection required.
+			d, a, o := 0, 0, 0
+			for _, ch := range b {
+				switch {
+				case ch >= '0' && ch <= '9':
+					d++
+				case qrInAlphabet(2, []byte{ch}):
+					a++
+				default:
+					o++
+				}
+			}
+			classes := 0
+			for _, k := range []int{d, a, o} {
+				if k > 0 {
+					classes++
+				}
+			}
+			if classes >= 2 && (10*d+2)/3+(11*a+1)/2+8*o+12 <= 8*ref.QRDataCodewords(40, s.A) {
+				return either
+			}
+		}
 		return mustReject
 	case "datamatrix":
 		if ref.DMAsciiCodewords(b) <= 1558 {
